@@ -193,7 +193,28 @@ func HarnessC06(a []int) {
 		return
 	}
 	verifCover("C06.accepted")
+	// the decoded value is the instance's own: overwriting the payload it was decoded from (a reused
+	// receive buffer) does not change it
+	in := append([]byte(nil), data...)
+	for i := range data {
+		data[i] = ^data[i]
+	}
+	data = in
 	b2 := d1.Pack()
+	// an encoding handed out is the caller's: writing into it does not change a later encoding
+	snap := append([]byte(nil), b2...)
+	for i := range b2 {
+		b2[i] = ^b2[i]
+	}
+	if main != 9 || sub == 1 {
+		// (the twenty 9.xxx types share one coder; its second run is explored for 9.001 only)
+		b3 := d1.Pack()
+		verifAssert("C06.encoding_independent.len", len(b3) == len(snap))
+		for i := range snap {
+			verifAssert("C06.encoding_independent.byte", b3[i] == snap[i])
+		}
+	}
+	b2 = snap
 	d2, _ := Produce(name)
 	err := d2.Unpack(b2)
 	verifObserve("len2", len(b2))
